@@ -18,12 +18,12 @@ Next ==
   /\ LET e == Trace[l] IN
        /\ fp0' = IF e.ev = "fp" /\ e.when = "before" THEN [set |-> TRUE, cfg |-> e.cfg, pkg |-> e.pkg] ELSE fp0
        /\ bad' = AddBad(bad,
-            CASE e.ev = "conc" -> One(e.conc = e.seq, l, "C12", <<"a call returned something else than when executed alone", e.op, [goroutines |-> e.k, gomaxprocs |-> e.gomaxprocs]>>, <<"conc", "reply", e.op>>)
+            CASE e.ev = "conc" -> One(e.conc = e.seq, l, "C12", <<"a call returned something else than when executed alone", e.op, [goroutines |-> e.k, gomaxprocs |-> e.gomaxprocs, envgmp |-> e.envgmp]>>, <<"conc", "reply", e.op>>)
               [] e.ev = "fp"   -> IF e.when = "after" /\ fp0.set
                                   THEN One(e.cfg = fp0.cfg /\ e.pkg = fp0.pkg, l, "C12", "configuration or package-level values changed during concurrent use", <<"conc", "config">>)
                                   ELSE <<>>
               [] e.ev = "race" -> <<Dev(l, "C12", <<"the race detector reported a data race", e.text>>, <<"conc", "race">>)>>
-              [] e.ev = "hang" -> <<Dev(l, "C12", <<"concurrent calls did not return within the watchdog", e.k, e.gomaxprocs>>, <<"conc", "hang">>)>>
+              [] e.ev = "hang" -> <<Dev(l, "C12", <<"concurrent calls block: no call returned within the watchdog", [goroutines |-> e.k, gomaxprocs |-> e.gomaxprocs, envgmp |-> e.envgmp, returned |-> e.returned, of |-> e.of]>>, <<"conc", "hang">>)>>
               [] e.ev = "concpanic" -> <<Dev(l, "C12", <<"a goroutine panicked", e.panic>>, <<"conc", "panic">>)>>)
        /\ cnt' = Bump(cnt, IF e.ev = "conc" THEN e.op ELSE e.ev)
   /\ l' = l + 1
